@@ -51,11 +51,36 @@ var specialStrings = []string{
 	"\x00", "\x01", "\x1f", "\x1b[0m", "\u0080", "\u2028", "\u2029", "\U0001F600", "\ufffd", "\\u0041", "a\x00b", "\r\n", "\v", "\a",
 	"a ", " a", "a\t", "A ",
 	"'", "`", "/", "\\\"", "0.5", "1e3", "-0", "01", "+1", " 1", "9007199254740993", "\U0010ffff", "e\u0301", "ß", "ǅ", "İ",
+	// pairs that collide under common 32-bit hashes (neighbours, so that a rotated table holds both): CRC-32 IEEE and
+	// Castagnoli (equal lengths: the collision survives any common prefix and suffix, such as JSON quotes), FNV-1a of
+	// the raw and of the quoted text, FNV-1, and the base-31 polynomial hash
+	"u.?D[R", "0D9w2r", "a[u^!R", ";(_=jJ", "npvwtg", "vvriho", "plutaw", "dpehqk", "zdhpuk", "enxoxp", "AaAa", "BBBB",
 }
 
 // specialInts are substituted for the last entries of the spaced table, rotated by a per-run offset.
 // 2^53+1 is not representable as float64: a decoder going through float64 shows.
-var specialInts = []int{math.MinInt, math.MaxInt, -1, 1, 1<<53 + 1, -(1<<53 + 1), 2, 1 << 31, -(1 << 31), 7, 100, 255, 256, 1 << 16, math.MinInt + 1, math.MaxInt - 1}
+var specialInts = []int{math.MinInt, math.MaxInt, -1, 1, 1<<53 + 1, -(1<<53 + 1), 2, 1 << 31, -(1 << 31), 7, 100, 255, 256, 1 << 16, math.MinInt + 1, math.MaxInt - 1,
+	// pairs whose decimal text (raw, or quoted as a JSON member name) collides under CRC-32 IEEE / Castagnoli, FNV-1a, FNV-1
+	86821, 14740600, 9106889, 14000606, 1371838, 2000402, 1562789, 1779192, 2112789, 2349192, 1947786, 2406240}
+
+// Plans record the version of the special-value pools they were generated with (Cfg.Pool), so that the
+// minimised plans of the regression corpus keep denoting the same elements when the pools grow.
+// Version 0: the pools without the hash-collision pairs (12 entries each, appended last).
+var curPool int
+
+func strPool() []string {
+	if curPool == 0 {
+		return specialStrings[:len(specialStrings)-12]
+	}
+	return specialStrings
+}
+
+func intPool() []int {
+	if curPool == 0 {
+		return specialInts[:len(specialInts)-12]
+	}
+	return specialInts
+}
 
 func intTab(n int, off int) []int {
 	t := make([]int, n)
@@ -66,7 +91,7 @@ func intTab(n int, off int) []int {
 	}
 	k := min(n/4, 4)
 	for j := 0; j < k; j++ {
-		v := specialInts[(off+j)%len(specialInts)]
+		v := intPool()[(off+j)%len(intPool())]
 		if !seen[v] {
 			seen[v] = true
 			t[n-1-j] = v
@@ -80,8 +105,8 @@ func intTab(n int, off int) []int {
 func strTab(n int, off int) []string {
 	t := make([]string, n)
 	for i := range t {
-		if i < len(specialStrings) {
-			t[i] = specialStrings[(i+off)%len(specialStrings)]
+		if i < len(strPool()) {
+			t[i] = strPool()[(i+off)%len(strPool())]
 		} else {
 			t[i] = fmt.Sprintf("s%03d", i)
 		}
@@ -154,7 +179,9 @@ func intDom(n int, cmpName string, off int) *Dom[int] {
 		if v < -(1<<50) || v > 1<<50 {
 			continue
 		}
-		d.Probes = append(d.Probes, v-1, v+1)
+		if len(d.Probes) < 128 {
+			d.Probes = append(d.Probes, v-1, v+1)
+		}
 		if v < lo {
 			lo = v
 		}
@@ -196,7 +223,7 @@ func strDom(n int, cmpName string, off int) *Dom[string] {
 		panic("unknown string comparator " + cmpName)
 	}
 	for i, v := range d.Tab {
-		if i%2 == 0 {
+		if i%2 == 0 && len(d.Probes) < 128 {
 			d.Probes = append(d.Probes, v+"\x01")
 		}
 	}
